@@ -1,3 +1,197 @@
+import PB.Model.Dsd
 import PB.Drv.Loop
-/- Driver stub for C09 (model not built yet): every op is rejected. -/
-def main : IO Unit := PB.Drv.lineLoop (fun _ => "bad-op")
+/-
+Driver for C09: one dsd-package call per line. The third-party codecs and gzip are parameters of the model;
+the harness supplies their results as *fact* lines (`enc`, `enci`, `raw`, `cd`, `gz`, `gun`, `gze`) that it
+computed with the real libraries (and that the implementation side re-verifies). Everything that is not a
+registered fact fails, exactly as the real library does on the inputs of the case.
+Values are opaque ids (`vid`); strings travel as hex of their UTF-8 bytes.
+-/
+namespace PB.Drv.C09
+open PB PB.Dsd PB.Gen.Dsd
+
+structure St where
+  encs : List (Lib × Bytes) := []
+  encIs : List (Str × Bytes) := []
+  raw : Option Bytes := none
+  decs : List ((Lib × Bytes) × String) := []
+  gzs : List (Bytes × Bytes) := []
+  gunzs : List (Bytes × Except Err Bytes) := []
+  blob : Bytes := []
+  mdata : Bytes := []
+  mtype : Str := []
+  req : Req := {}
+  resp : Resp := {}
+
+def St.codec (s : St) : Codec String where
+  enc l _ := lookup l s.encs
+  encIndent i _ := lookup i s.encIs
+  dec l b := lookup (l, b) s.decs
+  asBytes _ := s.raw
+  gz b := (lookup b s.gzs).getD []
+  gunz b := (lookup b s.gunzs).getD (.error .gunzip)
+
+def parseLib : String → Option Lib
+  | "json" => some .json | "yaml" => some .yaml | "cbor" => some .cbor
+  | "msgpack" => some .msgpack | "gencode" => some .gencode | _ => none
+
+def strOfBytes (b : Bytes) : Option Str :=
+  (String.fromUTF8? (ByteArray.mk b.toArray)).map (fun s => s.toList.map Char.toNat)
+
+def bytesOfStr (s : Str) : Bytes := (String.ofList (s.map Char.ofNat)).toUTF8.toList
+
+def parseStr (w : String) : Option Str := (parseHex w).bind strOfBytes
+
+def hexStr (s : Str) : String := toHex (bytesOfStr s)
+
+def optStr : Option Str → String
+  | none => "nil"
+  | some s => hexStr s
+
+def optBytes : Option Bytes → String
+  | none => "nil"
+  | some b => toHex b
+
+/-- Byte operand: `@` last dumped blob, `@1` the same without its first byte, `@m` last MimeDump data, else hex. -/
+def operand (s : St) (w : String) : Option Bytes :=
+  if w = "@" then some s.blob
+  else if w = "@1" then some (s.blob.drop 1)
+  else if w = "@m" then some s.mdata
+  else parseHex w
+
+/-- String operand: `@t` last MimeDump mime type, else hex of UTF-8. -/
+def strOperand (s : St) (w : String) : Option Str :=
+  if w = "@t" then some s.mtype else parseStr w
+
+def optStrOperand (w : String) : Option (Option Str) :=
+  if w = "nil" then some none else (parseStr w).map some
+
+def optBytesOperand (w : String) : Option (Option Bytes) :=
+  if w = "nil" then some none else (parseHex w).map some
+
+def showLoad : Nat × Except Err String → String
+  | (f, .ok v) => s!"{f} ok {v}"
+  | (f, .error e) => s!"{f} err {e.str}"
+
+def showDump (s : St) : Except Err Bytes → St × String
+  | .ok b => ({ s with blob := b }, s!"ok {toHex b}")
+  | .error e => (s, s!"err {e.str}")
+
+def errStr : Option Err → String
+  | none => "ok"
+  | some e => s!"err {e.str}"
+
+def listNat (l : List Nat) : String := " ".intercalate (l.map toString)
+
+/-- Code points ≥ 128 below `0x110000` that `goLower` sends to ASCII (compared with Go's `unicode.ToLower`). -/
+def lowerScan : List Nat := (List.range 0x110000).filter (fun c => c ≥ 128 ∧ goLower c < 128)
+
+def spaceScan : List Nat := (List.range 0x110000).filter isSpace
+
+def step (s : St) (line : String) : St × String :=
+  let bad := (s, "bad-op")
+  match PB.Drv.words line with
+  | ["val", _, _] => ({ s with encs := [], encIs := [], raw := none }, "ok")
+  | ["enc", l, h] =>
+    match parseLib l, parseHex h with
+    | some l, some b => ({ s with encs := (l, b) :: s.encs }, "ok")
+    | _, _ => bad
+  | ["enci", i, h] =>
+    match parseStr i, parseHex h with
+    | some i, some b => ({ s with encIs := (i, b) :: s.encIs }, "ok")
+    | _, _ => bad
+  | ["raw", h] =>
+    match parseHex h with
+    | some b => ({ s with raw := some b }, "ok")
+    | none => bad
+  | ["cd", l, h, vid] =>
+    match parseLib l, parseHex h with
+    | some l, some b => ({ s with decs := ((l, b), vid) :: s.decs }, "ok")
+    | _, _ => bad
+  | ["gz", p, c] =>
+    match parseHex p, parseHex c with
+    | some p, some c => ({ s with gzs := (p, c) :: s.gzs, gunzs := (c, .ok p) :: s.gunzs }, "ok")
+    | _, _ => bad
+  | ["gun", c, p] =>
+    match parseHex c, parseHex p with
+    | some c, some p => ({ s with gunzs := (c, .ok p) :: s.gunzs }, "ok")
+    | _, _ => bad
+  | ["gze", c] =>
+    match parseHex c with
+    | some c => ({ s with gunzs := (c, .error .eof) :: s.gunzs }, "ok")
+    | none => bad
+  | ["dump", f] =>
+    match f.toNat? with
+    | some f => showDump s (dump s.codec "" f)
+    | none => bad
+  | ["dumpi", f, i] =>
+    match f.toNat?, parseStr i with
+    | some f, some i => showDump s (dumpIndent s.codec "" f i)
+    | _, _ => bad
+  | ["dac", f, c] =>
+    match f.toNat?, c.toNat? with
+    | some f, some c =>
+      -- never default silently: the gzip fact for the blob about to be compressed must have been supplied
+      match dump s.codec "" f with
+      | .ok b =>
+        if (validateCompressionFormat c).isSome ∧ (lookup b s.gzs).isNone then (s, "missing-fact gz " ++ toHex b)
+        else showDump s (dumpAndCompress s.codec "" f c)
+      | .error _ => showDump s (dumpAndCompress s.codec "" f c)
+    | _, _ => bad
+  | ["load", o] =>
+    match operand s o with
+    | some b => (s, showLoad (load s.codec b))
+    | none => bad
+  | ["laf", f, o] =>
+    match f.toNat?, operand s o with
+    | some f, some b =>
+      (s, match loadAsFormat s.codec b f with
+          | .ok v => s!"ok {v}"
+          | .error e => s!"err {e.str}")
+    | _, _ => bad
+  | ["dal", c, o] =>
+    match c.toNat?, operand s o with
+    | some c, some b => (s, showLoad (decompressAndLoad s.codec b c))
+    | _, _ => bad
+  | ["ffa", a] =>
+    match parseStr a with
+    | some a => (s, toString (formatFromAccept a))
+    | none => bad
+  | ["mimedump", a] =>
+    match parseStr a with
+    | some a =>
+      match mimeDump s.codec "" a with
+      | .ok (d, m, f) => ({ s with mdata := d, mtype := m }, s!"ok {f} {hexStr m} {toHex d}")
+      | .error e => (s, s!"err {e.str}")
+    | none => bad
+  | ["mimeload", a, o] =>
+    match strOperand s a, operand s o with
+    | some a, some b => (s, showLoad (mimeLoad s.codec b a))
+    | _, _ => bad
+  | ["newreq"] => ({ s with req := {} }, "ok")
+  | ["req", f] =>
+    match f.toNat? with
+    | some f =>
+      let (r, e) := dumpToHTTPRequest s.codec s.req "" f
+      ({ s with req := r }, s!"{errStr e} a={optStr r.accept} ct={optStr r.contentType} body={optBytes r.body}")
+    | none => bad
+  | ["setreq", a, ct, b] =>
+    match optStrOperand a, optStrOperand ct, optBytesOperand b with
+    | some a, some ct, some b => ({ s with req := { accept := a, contentType := ct, body := b } }, "ok")
+    | _, _, _ => bad
+  | ["loadreq"] => (s, showLoad (loadFromHTTPRequest s.codec s.req))
+  | ["resp"] =>
+    let (w, e) := dumpToHTTPResponse s.codec {} s.req ""
+    ({ s with resp := w }, s!"{errStr e} ct={optStr w.contentType} body={toHex w.body}")
+  | ["setresp", ct, b] =>
+    match optStrOperand ct, parseHex b with
+    | some ct, some b => ({ s with resp := { contentType := ct, body := b } }, "ok")
+    | _, _ => bad
+  | ["loadresp"] => (s, showLoad (loadFromHTTPResponse s.codec s.resp))
+  | ["lowerscan"] => (s, listNat lowerScan)
+  | ["spacescan"] => (s, listNat spaceScan)
+  | _ => bad
+
+end PB.Drv.C09
+
+def main : IO Unit := PB.Drv.runState ({} : PB.Drv.C09.St) PB.Drv.C09.step
